@@ -24,7 +24,7 @@ import (
 	"github.com/flamego/flamego/verifharness/internal/rt"
 )
 
-const rule = "case = one request: a query string (value-first: generated values - arbitrary bytes, separators, blanks, non-ASCII, numbers at and beyond the int range, boolean and float literals, garbage - are percent-encoded by the harness' own encoder; optionally next to malformed pairs under other keys; or a raw hostile query string), a bind parameter value sent through a /{v} route, a cookie value (arbitrary bytes, read twice) and a raw Cookie header; optionally the request is a POST whose urlencoded body (parsed by an earlier handler) carries other values under the same key; every accessor is called with and without a default; optionally two further requests to one static route, the first of which writes a key into its own Params() that the second reads. " +
+const rule = "case = one request: a query string (value-first: generated values - arbitrary bytes, separators, blanks, non-ASCII, numbers at and beyond the int range, boolean and float literals, garbage - are percent-encoded by the harness' own encoder; optionally next to malformed pairs under other keys; or a raw hostile query string), a bind parameter value sent through a /{v} route, a cookie value (arbitrary bytes, read twice) and a raw Cookie header; optionally the request is a POST whose urlencoded body (parsed by an earlier handler) carries other values under the same key; every accessor is called with and without a default; optionally two further requests to one route with a bind, the first of which writes a key into its own Params() that the second reads. " +
 	"Oracle: no panic; an own evaluation of the rule (own percent codec, own integer recogniser + big.Int range check, own 12-literal boolean table, exact float round trip, trim = TrimSpace of Query); the Set-Cookie header produced by SetCookie is fed back as a Cookie header and must read back byte for byte. " +
 	"non-trivial = a value with control bytes, separators (; , = & % + blank), non-ASCII / invalid UTF-8, a number at or over the int range, a malformed typed value with a default supplied, or a raw hostile query / cookie header; distinct by case text"
 
@@ -60,8 +60,10 @@ type Case struct {
 	// (before it when JunkFirst): they are nobody's value, "k" is still present.
 	Junk      []string `json:"junk_pairs,omitempty"`
 	JunkFirst bool     `json:"junk_first,omitempty"`
-	// Leak: before the request under test, another request to the same static
-	// route wrote this key into its own Params(); the one under test reads it.
+	// Leak: before the request under test, another request to the same route
+	// ("/static/{page}": a route with a bind, whose parameter map is the
+	// request's own by necessity) wrote this key into its own Params(); the one
+	// under test reads it.
 	Leak bool `json:"params_written_by_earlier_request,omitempty"`
 	// CaseSibling: in front of the cookies under test the request carries
 	// cookies whose names differ from theirs in letter case only ("CK", "Nosuch");
@@ -193,7 +195,7 @@ func checkCase(c Case) (out evid.Outcome) {
 
 	var leaked string
 	var leakedInt int
-	f.Get("/static/page", func(ctx flamego.Context) {
+	f.Get("/static/{page}", func(ctx flamego.Context) {
 		if ctx.Request().Header.Get("X-Write") != "" {
 			ctx.Params()["note"] = "41"
 			return
